@@ -15,9 +15,9 @@ What runs (props/engine_common.run_engine_check):
     director releasing the held sequences one by one with pauses of 0..2.5 check periods so that the k-th run falls
     before / after each sequence boundary and into the window between the last poll and the drain; other groups and
     sequences fail at random so that every way a scope can fail occurs) + `final` (a failing stage at every position)
-    + `mixed`; every trace of the real engine must be ACCEPTED by the automaton and satisfy mon_cont_deferred;
+    + `tol` (tolerance exceeded inside / after the launch loop: the sequence way of failing a block) + `mixed`; every trace of the real engine must be ACCEPTED by the automaton and satisfy mon_cont_deferred;
   * "keeps being re-run" (liveness, not a trace-safety clause) is MEASURED: a continuous group that is scripted to fail
-    at run k >= 2 must be seen making >= 2 runs in a fair share of the traces; if no trace at all shows a second run of
+    at run k >= 2 must be seen making its runs; if no trace at all shows a THIRD run (initial run + two re-runs) of
     any continuous group the check reports a violation (runContChecks does not re-run).
 """
 from vf import framework as fw
@@ -49,7 +49,7 @@ def run(ctx):
     mons = ["mon_cont_deferred", ("mon_cont_deferred_diag", "list")]
     out = ec.run_engine_check(
         ctx,
-        profile=[("cont", 252, 2520), ("final", 64, 960), ("mixed", 48, 720)],
+        profile=[("cont", 252, 2520), ("final", 128, 1920), ("tol", 180, 1080), ("mixed", 48, 720)],
         n_quick=0, n_thorough=0,
         extra_header="From Coercion.C07 Require Import MonC07.",
         monitors=mons,
@@ -89,13 +89,13 @@ def run(ctx):
         rerun = sum(1 for a, b in zip(stats["plan_cont_runs"], stats["block_cont_runs"]) if max(a, b) >= 2)
         third = sum(1 for a, b in zip(stats["plan_cont_runs"], stats["block_cont_runs"]) if max(a, b) >= 3)
         with_cont = sum(1 for a, b in zip(stats["plan_cont_runs"], stats["block_cont_runs"]) if max(a, b) >= 1)
-        ok = (with_cont < 30) or rerun > 0
+        ok = (with_cont < 30) or third > 0
         ctx.oblige("continuous checks keep being re-run: %d of %d traces with a continuous group show >= 2 runs of one "
                    "(%d show >= 3)" % (rerun, with_cont, third), ok)
-        if not ok and not ctx.violations:
+        if not ok:
             c = min((c for c in live if c["dist"].get("profile") == "cont"), key=ec._size, default=live[0])
             ctx.violation(ec._replay_obj(ctx, c, "no-rerun", "C07 'each continuous check keeps being re-run': none of %d traces with "
-                                         "a continuous group shows a second run of it although the sequences were held for several "
+                                         "a continuous group shows a third run of it (the initial run and two re-runs) although the sequences were held for several "
                                          "check periods (runContChecks does not re-run)" % with_cont, None, ec._mon_specs(mons)))
         # ---- which clauses fail, on how many traces; one replay per distinct clause beyond the one already written ----
         per = {}
